@@ -85,6 +85,9 @@ type Peer struct {
 	tlsCfg  *tls.Config
 	handler func(*PeerConn)
 
+	// Coalesce (TLS peers): records written within a millisecond leave in one segment.
+	Coalesce atomic.Bool
+
 	accepts atomic.Int64
 	mu      sync.Mutex
 	conns   []*ConnLog
@@ -146,6 +149,11 @@ func (p *Peer) serve() {
 			tc := c.(*net.TCPConn)
 			var conn net.Conn = &loggedConn{Conn: c, log: cl}
 			if p.tlsCfg != nil {
+				if p.Coalesce.Load() {
+					cc := &coalesceConn{Conn: conn}
+					defer cc.Close()
+					conn = cc
+				}
 				ts := tls.Server(conn, p.tlsCfg)
 				ts.SetDeadline(time.Now().Add(10 * time.Second))
 				if err := ts.Handshake(); err != nil {
@@ -511,3 +519,68 @@ func (p *Peer) TrimRequests(n int) {
 	}
 	p.mu.Unlock()
 }
+
+// coalesceConn delays writes by a millisecond and sends what accumulated in one segment.
+type coalesceConn struct {
+	net.Conn
+	mu    sync.Mutex
+	buf   []byte
+	timer *time.Timer
+	werr  error
+}
+
+func (c *coalesceConn) Write(p []byte) (int, error) {
+	c.mu.Lock()
+	defer c.mu.Unlock()
+	if c.werr != nil {
+		return 0, c.werr
+	}
+	c.buf = append(c.buf, p...)
+	if len(c.buf) >= 256<<10 {
+		c.flushLocked()
+		if c.werr != nil {
+			return 0, c.werr
+		}
+	} else if c.timer == nil {
+		c.timer = time.AfterFunc(time.Millisecond, func() {
+			c.mu.Lock()
+			c.flushLocked()
+			c.mu.Unlock()
+		})
+	}
+	return len(p), nil
+}
+
+func (c *coalesceConn) flushLocked() {
+	if c.timer != nil {
+		c.timer.Stop()
+		c.timer = nil
+	}
+	if len(c.buf) > 0 && c.werr == nil {
+		_, c.werr = c.Conn.Write(c.buf)
+	}
+	c.buf = nil
+}
+
+// SetWriteDeadline first sends what is pending: crypto/tls expires the write deadline right after close_notify.
+func (c *coalesceConn) SetWriteDeadline(t time.Time) error {
+	c.mu.Lock()
+	c.flushLocked()
+	c.mu.Unlock()
+	return c.Conn.SetWriteDeadline(t)
+}
+
+func (c *coalesceConn) SetDeadline(t time.Time) error {
+	c.mu.Lock()
+	c.flushLocked()
+	c.mu.Unlock()
+	return c.Conn.SetDeadline(t)
+}
+
+func (c *coalesceConn) Close() error {
+	c.mu.Lock()
+	c.flushLocked()
+	c.mu.Unlock()
+	return c.Conn.Close()
+}
+
